@@ -568,3 +568,33 @@ Proof.
       by (intros; unfold blen; rewrite be_enc_length; reflexivity).
     rewrite !blen_app, Hz, !Hb. unfold pad. lia.
 Qed.
+
+(* ------------------------------------------------------------------ *)
+(* feature vectors over the whole uint16 bit-index range *)
+
+Lemma be_dec_acc_strip0 b : be_dec_acc (strip0 b) 0 = be_dec_acc b 0.
+Proof.
+  induction b as [|x b IH]; [reflexivity|]. cbn [strip0]. destruct x; [|reflexivity].
+  cbn [be_dec_acc]. exact IH.
+Qed.
+
+Lemma feature_vector_roundtrip oc k n r :
+  N.of_nat k <= 8192 -> n < 256 ^ N.of_nat k ->
+  valid_f oc FFeat (VB (feat_of_N k n)) = true /\ be_dec (feat_of_N k n) = n /\
+  blen (feat_of_N k n) <= 8192 /\
+  exists e, enc_f FFeat (VB (feat_of_N k n)) = Some e /\
+            dec_f oc FFeat (e ++ r) = Some (VB (feat_of_N k n), r).
+Proof.
+  unfold feat_of_N. intros Hk.
+  pose proof (strip0_len (be_enc k n)) as Hl. rewrite be_enc_length in Hl.
+  assert (Hb : blen (strip0 (be_enc k n)) <= 8192) by (unfold blen; lia).
+  assert (Hv : valid_f oc FFeat (VB (strip0 (be_enc k n))) = true).
+  { cbn [valid_f]. rewrite (proj2 (wf_bytesb_spec _) (strip0_wf _ (be_enc_wf k n))), strip0_head.
+    assert (H : (blen (strip0 (be_enc k n)) <=? 65535) = true) by (apply N.leb_le; lia).
+    rewrite H. reflexivity. }
+  intros Hn. split; [exact Hv|]. split.
+  - unfold be_dec. rewrite be_dec_acc_strip0. fold (be_dec (be_enc k n)).
+    rewrite be_dec_enc. apply N.mod_small. exact Hn.
+  - split; [exact Hb|].
+    destruct (field_roundtrip oc FFeat _ Hv eq_refl) as (e & He & Hd). exists e. auto.
+Qed.
